@@ -198,8 +198,8 @@ def cbmc_flags(u):
     fl = list(CBMC_CHECKS)
     if u.get('unwind'):
         fl += ['--unwind', str(u['unwind']), '--unwinding-assertions']
-    for us in u.get('unwindset', []):
-        fl += ['--unwindset', us]
+    if u.get('unwindset'):
+        fl += ['--unwindset', ','.join(u['unwindset'])]
     if u.get('unwindset') and not u.get('unwind'):
         fl += ['--unwinding-assertions']
     fl += ['--object-bits', str(u.get('object_bits', 10))]
@@ -331,6 +331,15 @@ def run_unit(u, root, tier, verbose=False):
 
 def obl_class(r):
     p = r.get('property', '')
+    d = r.get('description', '')
+    if d.startswith('Check loop invariant before entry'):
+        return 'loop_invariant_base'
+    if d.startswith('Check that loop invariant is preserved'):
+        return 'loop_invariant_step'
+    if d.startswith('Check decreases clause'):
+        return 'loop_decreases'
+    if d.startswith('Check that loop instrumentation'):
+        return 'loop_step_unwinding'
     parts = p.split('.')
     if len(parts) >= 3:
         return parts[-2]
@@ -518,6 +527,34 @@ def check_property(prop, tier, only=None, keep=False, verbose=False, jobs=None):
                     print('[%s] %s: %d/%d obligations, %.1fs%s' % (
                         r['kind'], r['unit'], r['discharged'], r['obligations'], r['wall_s'],
                         ' ERROR ' + r['error'] if r['error'] else ''), flush=True)
+        # DESIGN 5.4 rule 4: a unit whose only failures are auxiliary (loop invariants, decreases, ...)
+        # is re-decided without loop contracts, loops unwound to the unit's stated fallback bound.
+        fb = []
+        for r in results:
+            u = units[r['unit']]
+            if r['error'] or not r['failed'] or not u.get('fallback_unwind'):
+                continue
+            aux = tuple(u.get('aux_classes', AUX_CLASSES))
+            if all(f['class'] in aux or f['description'].startswith('AUX:') for f in r['failed']):
+                k = int(u['fallback_unwind'])
+                u2 = dict(u)
+                u2['name'] = u['name'] + '.fallback'
+                u2['loop_contracts'] = False
+                u2['unwind'] = k + 1
+                u2['unwindset'] = []
+                u2['defines'] = list(u.get('defines', [])) + ['-DVERIF_FALLBACK=%d' % k]
+                u2['kind'] = 'bounded'
+                u2['bound'] = 'loops unwound %d times (fallback after an auxiliary obligation failed)' % k
+                u2['expect_classes'] = []
+                units[u2['name']] = u2
+                fb.append((r, u2))
+        for r, u2 in fb:
+            r2 = run_unit(u2, root, tier, verbose)
+            if verbose:
+                print('[fallback] %s: %d/%d obligations%s' % (r2['unit'], r2['discharged'], r2['obligations'],
+                                                             ' ERROR ' + r2['error'] if r2['error'] else ''), flush=True)
+            r['fallback'] = r2['unit']
+            results.append(r2)
         results.sort(key=lambda r: r['unit'])
         violations, known_hits, errors = [], [], []
         nrep = 0
@@ -539,6 +576,9 @@ def check_property(prop, tier, only=None, keep=False, verbose=False, jobs=None):
                     if e:
                         known_hits.append((e, r['unit'], f))
                     else:
+                        fbr = [x for x in results if x['unit'] == r.get('fallback')]
+                        if fbr and fbr[0]['failed'] and not fbr[0]['error']:
+                            continue   # decided by the bounded fallback run (reported there)
                         errors.append('%s: auxiliary obligation undecided (not reported as a violation): %s %s'
                                       % (r['unit'], f['property'], f['description']))
             seen = set()
@@ -567,9 +607,10 @@ def check_property(prop, tier, only=None, keep=False, verbose=False, jobs=None):
                 print(line)
                 printed.add(line)
         vio_out = []
-        os.makedirs(os.path.join(VERIF, 'replays'), exist_ok=True)
+        rdir = os.path.join(VERIF, 'replays') if not os.environ.get('VERIF_NO_EVIDENCE') else os.path.join(root, 'replays')
+        os.makedirs(rdir, exist_ok=True)
         for r, u, f, n in violations[:8]:
-            rp = os.path.join(VERIF, 'replays', '%s-%s-%d.json' % (prop, r['unit'], n))
+            rp = os.path.join(rdir, '%s-%s-%d.json' % (prop, r['unit'], n))
             reproduced, out = native_replay(u, f['inputs'], root, str(n))
             json.dump({'property': prop, 'unit': r['unit'], 'obligation': f['property'],
                        'description': f['description'], 'function': f['function'], 'key': obl_key(r['unit'], f),
@@ -585,7 +626,15 @@ def check_property(prop, tier, only=None, keep=False, verbose=False, jobs=None):
             vio_out.append(line)
         for e in errors:
             print('TOOL:', e)
-        write_evidence(prop, tier, seed, results, units, known_hits, len(violations), errors, time.time() - t0)
+        st = None
+        if tier == 'thorough' and not os.environ.get('VERIF_NO_EVIDENCE') and not violations and not errors:
+            rc_st, st = selftest(prop, verbose)
+            if rc_st:
+                errors.append('self-test: the check did not catch mutant(s): %s' % [x['mutant'] for x in st if x['result'] != 'caught'])
+                for e in errors[-1:]:
+                    print('TOOL:', e)
+        if not os.environ.get('VERIF_NO_EVIDENCE'):
+            write_evidence(prop, tier, seed, results, units, known_hits, len(violations), errors, time.time() - t0, st)
         if violations:
             return 1
         if errors:
@@ -605,7 +654,7 @@ TRUSTED_COMMON = [
 ]
 
 
-def write_evidence(prop, tier, seed, results, units, known_hits, nviol, errors, wall):
+def write_evidence(prop, tier, seed, results, units, known_hits, nviol, errors, wall, st=None):
     man = {}
     try:
         for c in json.load(open(os.path.join(VERIF, 'MANIFEST.json')))['checks']:
@@ -666,6 +715,7 @@ def write_evidence(prop, tier, seed, results, units, known_hits, nviol, errors, 
             'assumed_contracts': sorted(assumed),
             'known_findings_hit': sorted(set(e['what'] for e, _, _ in known_hits)),
             'tool_errors': errors,
+            'selftest_mutants': st,
             'solver_s_total': round(sum(r['solver_s'] for r in results), 1),
             'explanation': 'contract-based deductive verification with CBMC code contracts; "proved" units have no '
                            'unwinding bound (loop contracts or loop-free / constant-trip-count code), "bounded" units '
@@ -680,6 +730,44 @@ def write_evidence(prop, tier, seed, results, units, known_hits, nviol, errors, 
         ev['coverage'].pop('states', None)
     os.makedirs(os.path.join(VERIF, 'evidence'), exist_ok=True)
     json.dump(ev, open(os.path.join(VERIF, 'evidence', prop + '.json'), 'w'), indent=1)
+
+
+def selftest(prop, verbose=False):
+    """apply each stored self-test mutant to a scratch copy of the sources; the quick check must report a violation"""
+    pats = sorted(glob.glob(os.path.join(VERIF, 'selftest', prop, '*.patch')))
+    if not pats:
+        print('no self-test mutants for', prop)
+        return 0, []
+    missed = []
+    out = []
+
+    def one(pt):
+        m = tempfile.mkdtemp(prefix='verif-selftest-')
+        try:
+            for d in ('lib', 'include'):
+                shutil.copytree(os.path.join(REPO, d), os.path.join(m, d),
+                                ignore=shutil.ignore_patterns('*.o', '*.lo', '.libs', '.deps', '*.la'))
+            pr = subprocess.run(['patch', '-p1', '-s', '-i', pt], cwd=m, stdout=subprocess.PIPE, stderr=subprocess.STDOUT, text=True)
+            if pr.returncode != 0:
+                return {'mutant': os.path.basename(pt), 'result': 'MISSED (patch does not apply)', 'first_failed_obligation': None}
+            env = dict(os.environ, VERIF_REPO=m, VERIF_NO_EVIDENCE='1')
+            r = subprocess.run([sys.executable, os.path.abspath(__file__), prop, '--tier', 'quick', '-j', '4'], env=env,
+                               stdout=subprocess.PIPE, stderr=subprocess.STDOUT, text=True)
+            caught = r.returncode == 1 and 'VIOLATION' in r.stdout
+            first = [l for l in r.stdout.split('\n') if l.startswith('failed obligation')][:1]
+            return {'mutant': os.path.basename(pt), 'result': 'caught' if caught else 'MISSED (exit %d)' % r.returncode,
+                    'first_failed_obligation': first[0] if first else None}
+        finally:
+            shutil.rmtree(m, ignore_errors=True)
+
+    with cf.ThreadPoolExecutor(4) as ex:
+        for res in ex.map(one, pats):
+            out.append(res)
+            if verbose:
+                print('selftest %s: %s %s' % (res['mutant'], res['result'], res['first_failed_obligation'] or ''), flush=True)
+            if res['result'] != 'caught':
+                missed.append(res['mutant'])
+    return (2 if missed else 0), out
 
 
 def replay_file(path):
@@ -710,6 +798,7 @@ def main():
     ap.add_argument('--only')
     ap.add_argument('--unit')
     ap.add_argument('--replay')
+    ap.add_argument('--selftest', action='store_true')
     ap.add_argument('--keep', action='store_true')
     ap.add_argument('-v', action='store_true')
     ap.add_argument('-j', type=int)
@@ -742,6 +831,9 @@ def main():
         sys.exit(rc)
     if not a.prop:
         ap.error('property id required')
+    if a.selftest:
+        rc, out = selftest(a.prop, True)
+        sys.exit(rc)
     sys.exit(check_property(a.prop, a.tier, a.only, a.keep, a.v, a.j))
 
 
